@@ -56,7 +56,12 @@ class Node:
         for w in self.words:
             m = re.match(r"^([A-Za-z_][A-Za-z0-9_]*)=(.*)$", w, re.S)
             if m:
-                out.append((m.group(1), m.group(2)))
+                v = m.group(2)
+                # name="$a/b" and name=$a/b assign the same text (no word splitting on the right of an assignment): the quotes around a
+                # whole value without blanks, quotes or command substitution are dropped
+                if len(v) >= 2 and v[0] == v[-1] == '"' and not re.search(r'[\s"`]|\$\(', v[1:-1]):
+                    v = v[1:-1]
+                out.append((m.group(1), v))
             else:
                 break
         return out
@@ -607,8 +612,16 @@ def walk_commands(root: Node) -> List[Cmd]:
         elif n.kind == "for":
             visit(n.body, ctx, guards + [("for " + " ".join(n.words), True)])
         elif n.kind == "case":
+            earlier = []
             for pats, body in n.arms:
-                visit(body, ctx, guards + [(f"case {n.subject} in {'|'.join(pats)}", True)])
+                g = [(f"case {n.subject} in {'|'.join(pats)}", True)]
+                # an arm with one literal pattern is the test `[ subject = pattern ]`; the arms before it did not match
+                lit = len(pats) == 1 and not any(ch in pats[0] for ch in "*?[]|$`")
+                if lit:
+                    g.append((f"[ {n.subject} = {pats[0]} ]", True))
+                visit(body, ctx, guards + earlier + g)
+                if lit:
+                    earlier = earlier + [(f"[ {n.subject} = {pats[0]} ]", False)]
         elif n.kind in ("subshell", "group"):
             visit(n.body, ctx, guards)
         else:
